@@ -4,9 +4,10 @@
    no two adjacent entries have the same parity (fold from the right, structural recursion); times are the
    polynomials of Base/PyLib.v (`poly`, `padd`, `peqb`).
 
-   NOT covered by a correspondence checker of its own: `merge`, `sched_eqb` ... are tied to the code only
-   through `timed`, `time_steps_gen`, `decomposition_gen` (regenerated from tebd.py / correspondence-checked),
-   on which the theorem applies them. *)
+   TIE: `merge` (applied to `timed` of the regenerated tables) is executed against the steps real TEBD
+   engines perform by check_merge of Model/TrotterMergeCheck.v (stream `merge` of harness/c14.py).
+   `sched_eqb` / `sched_eq` are the equality of the theorems (times as polynomials) and are not executed
+   against the code. *)
 From TenpyV Require Import Base.Prelude Base.PyLib Model.Trotter.
 From Coq Require Import QArith String.
 Open Scope Z_scope.
